@@ -123,4 +123,15 @@ void violation(const char* kind, const std::string& report) {
   __builtin_trap();
 }
 
+
+void persist_case_blob() {
+  if (g_dir.empty() || !g_have_blob) return;
+  char path[4096]; snprintf(path, sizeof path, "%s/case.%d.bin", g_dir.c_str(), (int)getpid());
+  FILE* f = fopen(path, "wb"); if (f) { fwrite(g_blob.data(), 1, g_blob.size(), f); fclose(f); }
+}
+void remove_case_blob() {
+  if (g_dir.empty()) return;
+  char path[4096]; snprintf(path, sizeof path, "%s/case.%d.bin", g_dir.c_str(), (int)getpid()); unlink(path);
+}
+
 }  // namespace vp
